@@ -2,8 +2,11 @@
 (* C19 (B): TLC enumerates the abstract cases (one initial state = one case, printed as JSON):
      dec    catalogue message x mutation, for the five decoders
               none                    the pristine octets (round trip)
-              trunc at <position>     cut after k octets: 0, 1, around the header, quartiles, the last two
-                                      (Tier "thorough": additionally every absolute offset 0..MaxAbs)
+              trunc at <position>     the octets end after k octets (the header still declares the full length):
+                                      every absolute offset 0..MaxAbs(format) and the classes 0, 1, around the header,
+                                      quartiles, the last two
+              cut at <position>       the same cut WITH the header's length field set to k: the outer framing is
+                                      consistent and a nested element is what is cut short
               len <class>             the header's length field set to: zero, one, header-1, header, n-1, n+1,
                                       n+100, max-1, max, and (formats whose field does not count the header)
                                       the values for which field+header wraps to 0 / to the header size
@@ -18,14 +21,20 @@ CONSTANTS Tier, Part      \* Part: "dec" | "split" | "scan" (one TLC run each)
 
 Thorough == Tier = "thorough"
 TruncAt == {"0", "1", "h-1", "h", "h+1", "h+2", "q1", "mid", "q3", "n-2", "n-1"}
-MaxAbs == 200
+(* upper bounds of the catalogue record lengths per format (Gap_Bound of the trace spec checks them) *)
+MaxAbs(p) == CASE p = "mrt" -> 130 [] p = "bmp" -> 170 [] p = "rtr" -> 36 [] p = "bfd" -> 28 [] OTHER -> 80
 LenAt == {"zero", "one", "h-1", "h", "n-1", "n+1", "n+100", "max-1", "max", "wrap0", "wrap-h"}
 TypeAt(p) == CASE p = "mrt" -> {"type", "subtype"} [] p = "bmp" -> {"type", "version"}
                [] p = "zapi" -> {"command", "version", "marker"} [] OTHER -> {"type"}
 
+(* the records of the MRT, BMP, RTR and BFD catalogues are short (at most MaxAbs(format) octets): they are cut at
+   EVERY octet offset in both tiers, which includes every offset inside their nested elements (RIB entries,
+   the carried BGP message, the BMP per-peer header, TLVs); ZAPI messages at the position classes (quick)
+   and at every offset (thorough) *)
+EveryOffset(p) == Thorough \/ p # "zapi"
 Muts(p) == {[m |-> "none", at |-> "-", n |-> 0]}
-           \cup {[m |-> "trunc", at |-> a, n |-> 0] : a \in TruncAt}
-           \cup (IF Thorough THEN {[m |-> "trunc", at |-> "abs", n |-> k] : k \in 0..MaxAbs} ELSE {})
+           \cup {[m |-> mm, at |-> a, n |-> 0] : mm \in {"trunc", "cut"}, a \in TruncAt}
+           \cup (IF EveryOffset(p) THEN {[m |-> mm, at |-> "abs", n |-> k] : mm \in {"trunc", "cut"}, k \in 0..MaxAbs(p)} ELSE {})
            \cup {[m |-> "len", at |-> a, n |-> 0] : a \in LenAt}
            \cup {[m |-> "type", at |-> a, n |-> 0] : a \in TypeAt(p)}
 
